@@ -55,6 +55,13 @@ def bound_form(ctx, rule):
             x = red
             if x is not None and q.is_call(x, 'unwrap_or'):
                 x = strip_refs(x[2][0])
+            elif x is not None and x[0] == 'var':
+                # `match reduced { Some(m) => m, None => 0.0 }`: same value
+                vals = q.multi_def_values(f, x[1])
+                some = [strip_refs(v) for _, cs, v in vals if strip_refs(v)[0] == 'field' and strip_refs(strip_refs(v)[1])[0] == 'downcast' and strip_refs(strip_refs(v)[1])[2] == 'Some']
+                none = [v for _, cs, v in vals if facts.is_const(strip_refs(v), 0)]
+                if len(vals) == 2 and len(some) == 1 and len(none) == 1:
+                    x = strip_refs(strip_refs(some[0][1])[1])
             good_red = x is not None and q.is_call(x, 'reduce') and len(x[2]) == 2 and x[2][1][0] == 'fn' and short(x[2][1][1]) == 'max' and 'f64' in x[2][1][1]
             if not good_red:
                 why.append('the positive part is not taken of an f64::max reduction')
@@ -66,7 +73,8 @@ def bound_form(ctx, rule):
                 if q.is_call(src, 'map'):
                     cf, _ = q.closure_of(lib, src[2][1])
                     rr = strip_refs(q.ret_expr(cf)) if cf is not None else None
-                    ident = rr is not None and rr == ('param', 2, cf.local_name(2) or '')
+                    ip = q.item_param(cf) if cf is not None else 2
+                    ident = rr is not None and rr[0] == 'param' and rr[1] == ip
                     ctx.touch(cf)
                 if not whole:
                     why.append('the reduction does not range over the whole cumulative-regret parameter')
@@ -157,6 +165,16 @@ def run(ctx):
     if f is not None:
         r = strip_refs(q.ret_expr(f))
         ok = q.is_call(r, 'max') and 'f64' in r[1] and {tuple(sorted(q.tags(a))) for a in r[2]} == {(0,), (1,)} and all('regrets' in facts.show(a) for a in r[2])
+        if not ok and q.is_call(r, 'max') and 'f64' in r[1]:
+            # the same two values read through the per-player accessor
+            sel = set()
+            for a in r[2]:
+                x = strip_refs(a)
+                if x[0] == 'call' and short(x[1]) == 'player_regret_bound' and len(x[2]) == 2:
+                    pn = strip_refs(x[2][1])
+                    if pn[0] == 'agg' and 'PlayerNum::' in pn[1]:
+                        sel.add(pn[1].split('PlayerNum::')[-1].rstrip('{}').split('::')[-1])
+            ok = {s_.split('{')[0] for s_ in sel} == {'One', 'Two'}
         ctx.verdict(ok, rule, rule + ':RegretBound::regret_bound', 'the total bound is f64::max of the two per-player bounds', f.where(0), 'returns %s' % facts.show(r)[:80], breaks='the total bound is below one player\'s bound')
     f = ctx.fn('lib', 'RegretBound::player_regret_bound', rule)
     if f is not None:
@@ -171,7 +189,13 @@ def run(ctx):
             ctx.anchor_lost(rule, 'Game::solve: RegretBound::new')
         for bi, t, e in nb:
             a = strip_refs(e[2][0])
-            ok = a[0] == 'field' and a[2] == '0' and a[1][0] == 'var'
+            # component 0 of the solver's result tuple, or its bounds field when the result is a named struct:
+            # a projection of the multi-def local that holds the value returned by the solve_* calls
+            base = strip_refs(a[1]) if a[0] == 'field' else None
+            from_solver = base is not None and base[0] == 'var' and all(v[0] == 'call' and short(v[1]).startswith('solve_') or (v[0] == 'field' or v[0] == 'downcast' or q.find_sub(v, lambda x: x[0] == 'call' and short(x[1]).startswith('solve_')) is not None)
+                                                                        for _, _, v in q.multi_def_values(f, base[1]))
+            f64pair = f.locals[t['args'][0]['pl']['l']]['ty'] == '[f64; 2]' if t['args'][0].get('o') in ('copy', 'move') else False
+            ok = a[0] == 'field' and (a[2] == '0' or f64pair) and from_solver
             ctx.verdict(ok, rule, rule + ':solve-wraps-solver-bounds', 'Game::solve wraps the pair of bounds returned by the solver unchanged', f.where(bi), 'argument %s' % facts.show(a)[:60])
     # initial value INFINITY
     rule = 'C02.initial-infinite'
